@@ -107,6 +107,29 @@ var (
 	flagSolver  = flag.String("solver", "z3-new", "z3|z3-new|cvc5")
 )
 
+// panicKind classifies a run-time panic message; a native panic confirms an interpreted one
+// only when both are of the same kind (a harness-side failure such as a missing draw making
+// a helper give up must not pass for the panic the executor predicted).
+func panicKind(m string) string {
+	for _, k := range []string{"nil pointer", "nil map", "index out of range", "slice bounds out of range", "makeslice", "divide by zero", "closed channel", "nil channel", "interface conversion", "negative shift", "out of memory", "reflect:"} {
+		if strings.Contains(m, k) {
+			if k == "slice bounds out of range" {
+				return "index out of range"
+			}
+			return k
+		}
+	}
+	return "other"
+}
+
+func samePanicKind(symbolic, native string) bool {
+	a, b := panicKind(symbolic), panicKind(native)
+	if a == "other" { // an explicit panic(value): any native panic of the run counts
+		return true
+	}
+	return a == b
+}
+
 // devRun: not the registered check (which runs every entry against /repo)
 func devRun() bool { return *flagRepo != "/repo" || *flagEntry != "" }
 
@@ -599,7 +622,7 @@ func run() int {
 						repro = true
 					}
 				}
-				if strings.HasSuffix(df.AssertID, ".uncaught-panic") && nr.Panic != "" {
+				if strings.HasSuffix(df.AssertID, ".uncaught-panic") && nr.Panic != "" && samePanicKind(df.Msg, nr.Panic) {
 					repro = true
 				}
 				if strings.HasSuffix(df.AssertID, ".no-crash") && nr.Panic != "" {
